@@ -235,6 +235,10 @@ func sanitize(h string) string {
 			b.WriteRune(r)
 		case r == '.' || r == '$' || r == '*' || r == '/' || r == '-':
 			b.WriteByte('_')
+		case r == '[':
+			b.WriteString("L")
+		case r == ']':
+			b.WriteString("R")
 		}
 	}
 	s := b.String()
@@ -383,7 +387,12 @@ var solverList = []Solver{
 	}},
 	{Name: "cvc5", Args: func(f string, ms int) []string {
 		return []string{"cvc5", "--strings-exp", fmt.Sprintf("--tlimit=%d", ms), f}
-	}, Prep: func(q string) string { return "(set-option :produce-models true)\n(set-logic ALL)\n" + q }},
+	}, Prep: func(q string) string {
+		// cvc5 does not know z3's option names
+		q = strings.ReplaceAll(q, "(set-option :smt.random_seed 11)\n", "")
+		q = strings.ReplaceAll(q, "(set-option :sat.random_seed 11)\n", "")
+		return "(set-option :produce-models true)\n(set-logic ALL)\n" + q
+	}},
 	{Name: "z3", Args: func(f string, ms int) []string {
 		return []string{"z3", fmt.Sprintf("-t:%d", ms), f}
 	}},
